@@ -1033,6 +1033,7 @@ func inAtomicValueStore(ex *Exec, fn *ssa.Function, args []Value) (Value, bool) 
 func init() {
 	intrinsicTable["(*sync/atomic.Value).Load"] = inAtomicValueLoad
 	intrinsicTable["(*sync/atomic.Value).Store"] = inAtomicValueStore
+	intrinsicTable["github.com/mmcloughlin/geohash.hasBMI2"] = inNoop // no assembly: the portable Go encoder runs
 	intrinsicTable["time.newTimer"] = inNewTimer
 	intrinsicTable["time.stopTimer"] = inNoop
 	intrinsicTable["time.resetTimer"] = inNoop
